@@ -43,16 +43,35 @@ def run(ctx):
         after = r[nb + 1]["arch"]["files"].get(f)
         still_decodable = after is not None and cls in ("hunk", "head", "tail") and after.get("t") in ("hunk", "json") \
             and kind in ("bitflip", "garbage", "trunchalf")
+        touched = damage.touched_paths(b["arch"], f) if cls in ("hunk", "block") else None
         for band in range(b["nbands"]):
             got, want = probe[idx[("restore", band)]], ref[idx[("restore", band)]]
             if want.get("result") != "ok":
                 continue
+            if touched is not None and got.get("tree") is not None and not still_decodable:
+                # every file / symlink whose index hunk and blocks are untouched restores exactly
+                for pth, node in gen.tree_paths(want["tree"]):
+                    if node["k"] == "d" or pth in touched:
+                        continue
+                    gn = damage.tree_node(got["tree"], pth)
+                    if gn is None or any(gn.get(k) != node.get(k) for k in ("k", "data", "target", "mtime", "mode", "uid", "gid")):
+                        ctx.oracle_fail("damage/untouched-file-not-restored", f"after {kind} of {f} ({cls}), restoring b{band:04d}: {pth!r}, whose index hunk and "
+                                        f"blocks are untouched, {'is missing' if gn is None else 'differs'} (errors reported: {damage.errs(got)})", small)
+                        failed = True
+                        break
+                if failed:
+                    break
             if got.get("result") == "ok" or got.get("tree") is not None:
                 d = scen.first_difference(scen.strip(want.get("tree")), scen.strip(got.get("tree")))
                 if d is not None:
                     changed_any = True
                     if damage.errs(got) == 0 and not still_decodable:
                         sig = "damage/silent-hunk" if cls == "hunk" else "damage/silent-" + cls
+                        if kind == "delete" and damage.is_last_hunk_of_open_band(b["arch"], f):
+                            sig = "damage/last-hunk-of-open-band-silent"
+                        if kind == "delete" and cls == "head" and f != f"b{band:04d}/BANDHEAD" \
+                                and b["arch"]["files"].get(f"b{band:04d}/BANDTAIL") is None:
+                            sig = "damage/deleted-head-of-older-band-silent"
                         ctx.oracle_fail(sig, f"after {kind} of {f} ({cls}), restoring b{band:04d} differs at {d[0]!r} ({d[1]}) "
                                              f"from the undamaged restore but no error was reported", small)
                         failed = True
@@ -68,17 +87,35 @@ def run(ctx):
                 ctx.oracle_fail("damage/backup-does-not-heal", f"after {kind} of {f} ({cls}) a new backup did not complete cleanly: "
                                                                f"{json.dumps(bk.get('err') or bk.get('monitor_errors'))[:200]}", small)
                 continue
-            if rn.get("result") != "ok" or damage.errs(rn) or scen.first_difference(scen.strip(r[nb - 2]["tree"]), scen.strip(rn.get("tree"))):
+            if rn.get("result") != "ok" or damage.errs(rn) or scen.first_difference(scen.strip(r[nb - 3]["tree"]), scen.strip(rn.get("tree"))):
                 ctx.oracle_fail("damage/new-backup-does-not-restore", f"after {kind} of {f} ({cls}) the new backup does not restore exactly: "
                                                                       f"{json.dumps(rn.get('err') or rn.get('monitor_errors'))[:200]}", small)
                 continue
         if changed_any:
             ctx.nontrivial(cls + ":" + kind)
         ctx.dist(f"damage_{cls}_{kind}")
+    damage.model_probe(ctx, "C10d", cases, info, res, every=1 if quick else 4)
+    k = damage.open_band_last_hunk_case(ctx)
+    ctx.count()
+    if k is not None:
+        steps, dmg, before, after, v, vq = k
+        d = scen.first_difference(scen.strip(before.get("tree")), scen.strip(after.get("tree"))) if before.get("result") == "ok" else None
+        if d is not None and damage.errs(after) == 0:
+            ctx.oracle_fail("damage/last-hunk-of-open-band-silent", f"an interrupted version (no BANDTAIL) that loses its LAST index hunk restores {d[0]!r} "
+                            f"differently ({d[1]}) with no error reported", {"base_steps": steps, "damage": dmg})
+    k = damage.deleted_head_case(ctx)
+    ctx.count()
+    if k is not None:
+        steps, dmg, before, after = k
+        d = scen.first_difference(scen.strip(before.get("tree")), scen.strip(after.get("tree"))) if before.get("result") == "ok" else None
+        if d is not None and damage.errs(after) == 0:
+            ctx.oracle_fail("damage/deleted-head-of-older-band-silent", f"restoring an interrupted version after the BANDHEAD of the version below it was "
+                            f"deleted: {d[0]!r} differs ({d[1]}) with no error reported", {"base_steps": steps, "damage": dmg})
     if cases:
         ctx.sample({"damaged_file": info[cases[0]["id"]][1], "kind": info[cases[0]["id"]][3]})
     ctx.assumptions += ["panics or hangs inside snap / serde_json / jiff on odd bytes are only observed (bit-flip stream), not proved absent",
-                        "the archive header is excluded, as in the property"]
+                        "the archive header is excluded, as in the property",
+                        "removing or emptying a BANDTAIL turns the band into the format's legal 'incomplete' state and is not counted as damage"]
 
 
 def replay(ctx, rep):
